@@ -67,6 +67,7 @@ FOCUS = {
 
 FOCUS['10'] = FOCUS['9']
 FOCUS['11'] = FOCUS['9']
+FOCUS['12'] = FOCUS['9']
 
 
 def prop_text(d):
